@@ -148,7 +148,10 @@ func (s *Server) followCheckSome(addr string, followc int, auth string,
 		return 0, errNoLongerFollowing
 	}
 	if s.aofsz < checksumsz {
-		return 0, nil
+		// The local log is too short to be compared with the leader's: drop
+		// it together with the dataset it produced and copy the leader from
+		// the start.
+		return 0, s.followReset()
 	}
 
 	conn, err := DialTimeout(addr, time.Second*2)
@@ -194,13 +197,8 @@ func (s *Server) followCheckSome(addr string, followc int, auth string,
 	fullpos := pos
 	fname := s.aof.Name()
 	if pos == 0 {
-		s.aof.Close()
-		s.aof, err = os.Create(fname)
-		if err != nil {
-			log.Fatalf("could not recreate aof, possible data loss. %s", err.Error())
-			return 0, err
-		}
-		return 0, nil
+		// nothing in common with the leader
+		return 0, s.followReset()
 	}
 
 	// we want to truncate at a command location
@@ -209,7 +207,7 @@ func (s *Server) followCheckSome(addr string, followc int, auth string,
 	if err != nil {
 		return 0, err
 	}
-	if pos == fullpos {
+	if pos == fullpos && pos == int64(s.aofsz) {
 		if s.opts.ShowDebugMessages {
 			log.Debug("follow: aof fully intact")
 		}
@@ -229,7 +227,7 @@ func (s *Server) followCheckSome(addr string, followc int, auth string,
 	}
 	// reset the entire system.
 	log.Infof("reloading aof commands")
-	s.reset()
+	s.resetDataset()
 	if err := s.loadAOF(); err != nil {
 		log.Fatalf("could not reload aof, possible data loss. %s", err.Error())
 		return 0, err
@@ -239,4 +237,27 @@ func (s *Server) followCheckSome(addr string, followc int, auth string,
 		return 0, errors.New("?")
 	}
 	return pos, nil
+}
+
+// resetDataset empties the dataset (collections, hooks and channels) and the
+// aof bookkeeping, before the log is loaded again or copied from the leader.
+func (s *Server) resetDataset() {
+	s.cmdFLUSHDB(&Message{Args: []string{"flushdb"}})
+	s.aofbuf = s.aofbuf[:0]
+	s.reset()
+}
+
+// followReset makes the follower an empty copy: the local log is recreated
+// and the dataset it produced is dropped.
+func (s *Server) followReset() error {
+	fname := s.aof.Name()
+	s.aof.Close()
+	var err error
+	s.aof, err = os.Create(fname)
+	if err != nil {
+		log.Fatalf("could not recreate aof, possible data loss. %s", err.Error())
+		return err
+	}
+	s.resetDataset()
+	return nil
 }
